@@ -237,6 +237,12 @@ def main(argv):
         return 3
 
 
+def abstraction_notes(notes):
+    """the notes that record a call or value abstracted away (no contract for a callee, opaque values): a refutation that
+    needs one of them is a refutation of the abstraction, not of the code"""
+    return sorted({n for n in notes if n.startswith(("opaque call", "call with *args", "opaque global", "regex method")) or " abstracted" in n})
+
+
 def write_baseline():
     """record which obligations are proved on the tree as it is now (run on the unchanged tree, committed)"""
     C.load_all()
@@ -245,7 +251,7 @@ def write_baseline():
         if con.trusted or con.bounded_only:
             continue
         rec, eng, res = verify_contract(fid, "quick", 10)
-        out[fid] = dict(ast=rec["ast_hash"], proved=sorted(o for o, v in rec["obligations"].items() if v["status"] == "proved"),
+        out[fid] = dict(ast=rec["ast_hash"], abstractions=abstraction_notes(rec["notes"]), proved=sorted(o for o, v in rec["obligations"].items() if v["status"] == "proved"),
                         not_proved=sorted(o for o, v in rec["obligations"].items() if v["status"] != "proved"), error=rec["error"])
         print(fid, len(out[fid]["proved"]), "proved;", out[fid]["not_proved"], rec["error"] or "")
     os.makedirs(os.path.join(ROOT, "baseline"), exist_ok=True)
@@ -371,6 +377,15 @@ def run_property(prop, tier, seed, t0):
                     failing = b["failures"][0]
             if kf and witness_fails(kf[0]):
                 known_hit[kf[0]["id"]] = kf[0]
+                continue
+            base = baseline.get(fid, {})
+            new_abs = [n for n in abstraction_notes(rec["notes"]) if n not in base.get("abstractions", [])] if "abstractions" in base else []
+            if failing is None and new_abs and base.get("ast") and base["ast"] != rec.get("ast_hash"):
+                # the function was changed and now calls something the sidecar has no contract for (abstracted as an arbitrary
+                # effect): a refutation without an input that fails on the real code is a refutation of that abstraction only
+                msg = "%s: %s not decided: the changed function uses %s" % (fid, oid, "; ".join(new_abs)[:200])
+                if msg not in inapplicable:
+                    inapplicable.append(msg)
                 continue
             data = dict(property=prop, contract=fid, obligation=oid, clause=o["text"], lines=o["lines"],
                         status=o["status"], proved_on_baseline=was_proved,
